@@ -23,7 +23,90 @@ E2_LOG = {"test": "TestE2LogCrash", "env": {"quick": {"VERIF_SCRIPTS": 8, "VERIF
 E2_SS = {"test": "TestE2StateSnapCrash", "env": {"quick": {"VERIF_SCRIPTS": 10, "VERIF_OPS": 9}, "thorough": {"VERIF_SCRIPTS": 40, "VERIF_OPS": 14, "VERIF_MAXCUT": 24}},
          "shards": {"quick": 2, "thorough": 16}}
 
+E3_EL = {"test": "TestE3Election", "env": {"quick": {"VERIF_N": 700}, "thorough": {"VERIF_N": 6000}},
+         "shards": {"quick": 1, "thorough": 8}}
+
+
+def E4(profile, qwalks=40, twalks=400, actions=400):
+    return {"test": "TestE4Walks", "name": "E4-walks-" + profile,
+            "env": {"quick": {"VERIF_PROFILE": profile, "VERIF_WALKS": qwalks, "VERIF_ACTIONS": actions},
+                    "thorough": {"VERIF_PROFILE": profile, "VERIF_WALKS": twalks, "VERIF_ACTIONS": actions + 200}},
+            "shards": {"quick": 2, "thorough": 16}}
+
+
+def E4D(scenarios=""):
+    return {"test": "TestE4Directed", "env": {"quick": {"VERIF_SCENARIOS": scenarios}, "thorough": {"VERIF_SCENARIOS": scenarios}},
+            "shards": {"quick": 1, "thorough": 1}}
+
+
+CLUSTER_NOTE = "E4: real nodes in a testing/synctest bubble (virtual time), transport that parks every Send* call, real file-backed storage behind recording wrappers, crash = directory image + cut-off zombie; scheduler actions: deliver/hold/lose/duplicate a call, advance time, client writes/reads at any node, two- and one-way partitions, crash/restart, membership changes, snapshots; all property oracles after every action and after a fault-free period"
+
 PROPS = {
+    "C01": {
+        "level": "proof",
+        "lean_modules": ["RaftVerif.Properties.C01", "RaftVerif.Properties.C02", "RaftVerif.Properties.C06"],
+        "engines": [E4("static"), E4("crash", 30, 300), E4D(), E3_AE],
+        "explanation": "PARTIAL proof. Machine-checked: node-local apply order (strictly increasing, own log, at most the commit index), election safety for all reachable cluster states (C02), the handler-level log-matching theorems (C06), vote restriction (C08), commit rule (C04), log crash recovery (C12). NOT proved: the cluster-level induction for leader completeness / one operation per index across replicas (DESIGN.md section 7), which is stated and tied by exploration only. Tie and search: " + CLUSTER_NOTE + "; every Apply call of every incarnation is recorded and compared (term and bytes per index, order per state machine instance).",
+        "assumptions": ["static membership (membership changes are C09)", "goroutines spawned by a section prepare their request before the node's next election section (DESIGN.md S26)"],
+    },
+    "C02": {
+        "level": "proof",
+        "lean_modules": ["RaftVerif.Properties.C02"],
+        "engines": [E3_RV, E3_EL, E4("static"), E4("crash", 30, 300)],
+        "explanation": "Full proof on the cluster model: inductive invariant over every reachable state of Model/Cluster.lean (any number of nodes, static configuration with >= 2 voters and any non-voters, requests and replies lost/delayed/reordered/duplicated, late replies after restarts, crashes with term and vote persisted, arbitrary interleaving with all other sections abstracted by OtherStep, which the real AppendEntries handler is proved to satisfy): at most one node ever enters the leader state per term; nodes in the leader state of one term are equal; replication requests of one term name one leader. Built on the same executable functions (requestVote, election, prepareRV, onVoteReply) that the engines compare with the real code: exhaustive RequestVote domain, election()/vote-reply sequences, the hasQuorum table; " + CLUSTER_NOTE,
+        "assumptions": ["static configuration with at least two voters (a sole voter: C09/C15 engines)",
+                        "S26: election() and the request preparation of the goroutines it spawns are one step (a goroutine whose start is delayed across the node's next election would read the newer term but count into the older round; not reproducible with this harness, recorded in DESIGN.md)",
+                        "restart reads back exactly the last completed SetState (C13)"],
+    },
+    "C03": {
+        "level": "proof",
+        "lean_modules": ["RaftVerif.Properties.C03"],
+        "engines": [E4("static"), E4("reads", 30, 300), E4D()],
+        "explanation": "PARTIAL proof. Machine-checked for every node state: a submission is registered under exactly the index of the entry appended for it (leader's term, submitted bytes); the apply loop answers a registration only with the log entry at that very index; every change of leadership drops all registrations; leader sections never truncate. Cross-node ordering/at-most-once depend on C01/C07 (not proved at cluster level). Tie and search: " + CLUSTER_NOTE + "; client histories with several overlapping clients: bytes, reported index/term, state machine result, at-most-once, real-time order.",
+        "assumptions": ["static membership"],
+    },
+    "C04": {
+        "level": "proof",
+        "lean_modules": ["RaftVerif.Properties.C04"],
+        "engines": [E4("static"), E4("crash", 30, 300), E3_AE],
+        "explanation": "PARTIAL proof. Machine-checked for every node state: the commit loop only advances the commit index to an entry of the leader's current term stored by the leader plus a hasQuorum set of voters (match index), never backwards; match indices change only through replies to requests of the current term; the leader appends before it sends, a follower appends before it acknowledges (C06_accept). Durability across crashes additionally rests on C12 (proved) and on leader completeness (not proved at cluster level). Tie and search: " + CLUSTER_NOTE + "; at every acknowledgement the logs of all voters (running or crashed image) are inspected for the entry.",
+        "assumptions": ["process-crash model; power loss outside (C12)", "static membership, snapshots off"],
+    },
+    "C05": {
+        "level": "proof",
+        "lean_modules": ["RaftVerif.Properties.C05"],
+        "engines": [E4("reads", 60, 500), E4("static", 20, 200), E4D("S6-read-confirmed-by-older-round,S28-read-index-before-first-commit")],
+        "explanation": "Section-level proof after three fix: commits (S5, S6, S28): a linearizable read is served only by a leader that committed in its term, only when verified, only when its read index is applied; a round verifies only reads submitted before the round was created; a new read is younger than every round in flight; the read index covers the commit index and, before the first commit of the term, the whole log; replies of another term and replies of non-voters confirm nothing. The real-time conclusion over cluster runs is tied by " + CLUSTER_NOTE + " with replies held far beyond the election timeout, deposed leaders and the two witnesses of the repaired defects.",
+        "assumptions": ["the composition of the section theorems into the real-time statement uses election safety (C02, proved) and leader completeness (not proved at cluster level)"],
+    },
+    "C07": {
+        "level": "proof",
+        "lean_modules": ["RaftVerif.Properties.C07"],
+        "engines": [E4("static"), E4("crash", 30, 300), E3_RV],
+        "explanation": "PARTIAL proof. Machine-checked for every node state: the vote restriction (lexicographic (last term, last index), for votes and prevotes), a new leader keeps its whole log and appends one no-op, leader sections never truncate. NOT proved: the cluster-level induction. Tie and search: exhaustive RequestVote domain (long-but-old vs short-but-new logs); " + CLUSTER_NOTE + "; at the first observation of every (term, leader) its log is compared with everything applied anywhere so far.",
+        "assumptions": ["static membership"],
+    },
+    "C09": {
+        "level": "proof",
+        "lean_modules": ["RaftVerif.Properties.C09"],
+        "engines": [E4("churn", 60, 500), E4D("S3-lost-removal,S4-membership-two-apart"), E3_EL],
+        "explanation": "Machine-checked for every node state: non-voters never count (hasQuorum = strict majority of voters; the commit rule counts voters only; a non-voter never campaigns; no vote request for or by a non-voter; non-voter replies confirm nothing), quorums of one configuration intersect. The cluster-level statement is FALSE of this code (known findings S3, S4; Lean witness C09_counterexample_removal_not_pending): both are replayed on the real code as directed schedules and reported as KNOWN-FINDING; violations with another signature (e.g. safety broken while all nodes are at most one configuration apart) are reported as violations. Search: " + CLUSTER_NOTE + " with random add-non-voter/promote/remove requests.",
+        "assumptions": ["known findings S3, S4 (see known_findings.json)"],
+    },
+    "C16": {
+        "level": "proof",
+        "lean_modules": ["RaftVerif.Properties.C16"],
+        "engines": [E3_RV, E3_EL, E4D("S8-stale-candidate-deposes-leader"), E4("static", 20, 200)],
+        "explanation": "Section-level proof after the S8 fix: commit: a voter in fresh contact (or a leader with a valid lease) refuses every vote request and changes nothing; the election loop raises the term only right after a won prevote; a failed candidate goes back to the prevote and keeps term and vote; a prevote never changes the voter (C08_prevote_pure). The interval statement combines these with election safety; its tie is the directed isolation/rejoin schedule (the witness of the repaired defect) and the exhaustive stickiness-guard domain.",
+        "assumptions": ["perfect shared virtual clock"],
+    },
+    "C17": {
+        "level": "proof",
+        "lean_modules": ["RaftVerif.Properties.C17"],
+        "engines": [E4("lease", 60, 500), E3_EL],
+        "explanation": "Section-level proof: lease arithmetic (valid strictly before renewal time + duration), renewal only through a quorum of voter replies of the current term (C05 lemmas), a lease read is served with data only under a valid lease, new leaders and followers hold no lease. The freshness conclusion under lease + delay < election timeout is tied by " + CLUSTER_NOTE + " with the scheduler enforcing the delay bound, with and without non-voters.",
+        "assumptions": ["perfect shared virtual clock; delay bound enforced by the scheduler (150 ms with lease 100 ms, election timeout 300 ms)"],
+    },
     "C06": {
         "level": "proof",
         "lean_modules": ["RaftVerif.Properties.C06"],
